@@ -194,6 +194,31 @@ func buildCorpus() [][]byte {
 			c = append(c, full[:i])
 		}
 	}
+	// lists whose members are near-equal ids: the decoder de-duplicates list members, so every ordered pair of id variants
+	// (scheme, host case, port, path form, query multiset, fragment) goes through the comparison code
+	var variants []string
+	for _, q := range gridQueries {
+		variants = append(variants, "https://example.com/a"+q)
+	}
+	for _, pth := range gridPaths {
+		variants = append(variants, "https://example.com"+pth)
+	}
+	for _, h := range gridHosts {
+		variants = append(variants, "http://"+h+"/a?x=1&x=2")
+	}
+	variants = append(variants, "HTTPS://example.com/a", "https://example.com/a#frag", "https://example.com/a?x=1&x=2&x=3", "https://example.com/a?x=1&y=2&x=3", "https://example.com/a?x", "https://example.com/a?x=&x=", "https://example.com/a?=1")
+	for i, a := range variants {
+		for j, b := range variants {
+			switch (i + j) % 3 {
+			case 0:
+				c = append(c, []byte(fmt.Sprintf(`[%q,%q]`, a, b)))
+			case 1:
+				c = append(c, []byte(fmt.Sprintf(`{"type":"Note","to":[%q,%q]}`, a, b)))
+			default:
+				c = append(c, []byte(fmt.Sprintf(`{"type":"Collection","items":[%q,{"id":%q,"type":"Person"}]}`, a, b)))
+			}
+		}
+	}
 	// every single byte, and some two-byte inputs
 	for b := 0; b < 256; b++ {
 		c = append(c, []byte{byte(b)})
